@@ -110,8 +110,9 @@ def trailingDigits (s : Str) : Str := (s.reverse.takeWhile isDig).reverse
 /-- `($$a[1]||0)`: the trailing number, 0 when there is none -/
 def sortKey (s : Str) : Nat := valOf (trailingDigits s)
 
-/-- `sortn` -/
-def sortn (l : List Str) : List Str := stableSort (fun a b => decide (sortKey a ≤ sortKey b)) l
+/-- `sortn`: `map {$$_[0]} sort {...<=>...} map {[$_,/(\d*)$/]} @_` — the keys are computed once -/
+def sortn (l : List Str) : List Str :=
+  (stableSort (fun a b : Str × Nat => decide (a.2 ≤ b.2)) (l.map fun s => (s, sortKey s))).map (·.1)
 
 /-- Perl `le` on byte strings -/
 def strLe : Str → Str → Bool
@@ -175,12 +176,26 @@ structure PState where
 
 def PState.empty : PState := ⟨[], []⟩
 
-def findIdx (st : PState) (n : Str) : Option Nat :=
+/-- `$i{$p}{$zp}{$n-1}`, then (for unpadded numbers) `$i{$p}{length $n}{$n-1}` -/
+def lookupIdx (st : PState) (n : Str) : Option Nat :=
   let zp := zeropadwidth n
   let v : Int := (valOf n : Int) - 1
   match assoc st.idx (zp, v) with
   | some i => some i
   | none => if zp = 1 then assoc st.idx (n.length, v) else none
+
+/-- repair of F19-LONGRUN (`lim = some 16384`): a range element is extended only while it spans
+fewer than `lim` numbers, `$n - $s{$p}[$idx][0] < lim`; `lim = none` is the unchanged script -/
+def withinLim (lim : Option Nat) (st : PState) (n : Str) (i : Nat) : Bool :=
+  match lim, st.runs[i]? with
+  | some m, some r => decide (valOf n - valOf r.start < m)
+  | _, _ => true
+
+/-- `defined $idx [&& ...]` -/
+def findIdx (lim : Option Nat) (st : PState) (n : Str) : Option Nat :=
+  match lookupIdx st n with
+  | some i => if withinLim lim st n i then some i else none
+  | none => none
 
 /-- `$s{$p}[$idx][1] = "$n"` -/
 def setStop : List Run → Nat → Str → List Run
@@ -189,23 +204,23 @@ def setStop : List Run → Nat → Str → List Run
   | r :: rs, i + 1, n => r :: setStop rs i n
 
 /-- body of the `for my $host` loop of `comp`, for the prefix's own state -/
-def stepP (st : PState) (n : Str) : PState :=
+def stepP (lim : Option Nat) (st : PState) (n : Str) : PState :=
   let key : Nat × Int := (zeropadwidth n, (valOf n : Int))
-  match findIdx st n with
+  match findIdx lim st n with
   | some i => ⟨setStop st.runs i n, (key, i) :: st.idx⟩
   | none => ⟨st.runs ++ [⟨n, none⟩], (key, st.runs.length) :: st.idx⟩
 
 /-- `$x{$p}` updated in place, new prefixes appended -/
-def upsert : List (Str × PState) → Str → Str → List (Str × PState)
-  | [], p, n => [(p, stepP PState.empty n)]
-  | (p', st) :: r, p, n => if p' = p then (p', stepP st n) :: r else (p', st) :: upsert r p n
+def upsert (lim : Option Nat) : List (Str × PState) → Str → Str → List (Str × PState)
+  | [], p, n => [(p, stepP lim PState.empty n)]
+  | (p', st) :: r, p, n => if p' = p then (p', stepP lim st n) :: r else (p', st) :: upsert lim r p n
 
-def compStep (st : List (Str × PState)) (host : Str) : List (Str × PState) :=
-  upsert st (splitNum host).1 (splitNum host).2
+def compStep (lim : Option Nat) (st : List (Str × PState)) (host : Str) : List (Str × PState) :=
+  upsert lim st (splitNum host).1 (splitNum host).2
 
 /-- `comp`: prefix ↦ range elements -/
-def comp (hosts : List Str) : List (Str × List Run) :=
-  ((sortn hosts).foldl compStep []).map fun e => (e.1, e.2.runs)
+def comp (lim : Option Nat) (hosts : List Str) : List (Str × List Run) :=
+  ((sortn hosts).foldl (compStep lim) []).map fun e => (e.1, e.2.runs)
 
 /-- one host-list element `pre[runs]suf` of a header -/
 structure Elem where
@@ -219,8 +234,8 @@ def sortByKey (l : List (Str × List Run)) : List (Str × List Run) :=
   stableSort (fun a b => strLe a.1 b.1) l
 
 /-- `compress_inner` (structured; `Elem.render` gives the text) -/
-def compressInner (stems : List Str) (suf : Str) : List Elem :=
-  (sortByKey (comp stems)).map fun e => ⟨e.1, e.2, suf⟩
+def compressInner (lim : Option Nat) (stems : List Str) (suf : Str) : List Elem :=
+  (sortByKey (comp lim stems)).map fun e => ⟨e.1, e.2, suf⟩
 
 def groupStep (m : Tab) (t : Str) : Tab := pushKey m (splitSuffix t).2 (splitSuffix t).1
 
@@ -228,14 +243,22 @@ def groupStep (m : Tab) (t : Str) : Tab := pushKey m (splitSuffix t).2 (splitSuf
 def suffixGroups (tags : List Str) : Tab := (sortn tags).foldl groupStep []
 
 /-- `compress`: per suffix (insertion order; Perl: hash order) the elements -/
-def compressGroups (tags : List Str) : List (List Elem) :=
-  (suffixGroups tags).map fun g => compressInner g.2 g.1
+def compressGroups (lim : Option Nat) (tags : List Str) : List (List Elem) :=
+  (suffixGroups tags).map fun g => compressInner lim g.2 g.1
 
-/-- behaviour after the proposed repair of F19-EMPTYSTEM (not used by the theorems): a name without
-any digit is listed as it is and never enters `comp` -/
-def compressGroupsFixed (tags : List Str) : List (List Elem) :=
-  ((sortn tags).filter fun t => (splitSuffix t).1.isEmpty).map (fun t => [⟨t, [⟨[], none⟩], []⟩]) ++
-    compressGroups (tags.filter fun t => !(splitSuffix t).1.isEmpty)
+/-- a name without any digit: its stem is empty -/
+def noStem (t : Str) : Bool := (splitSuffix t).1.isEmpty
+
+/-- `compress` after the repair of F19-EMPTYSTEM: a name without any digit is listed as it is and
+never enters `comp` -/
+def compressGroupsFixed (lim : Option Nat) (tags : List Str) : List (List Elem) :=
+  ((sortn tags).filter noStem).map (fun t => [⟨t, [⟨[], none⟩], []⟩]) ++
+    compressGroups lim (tags.filter fun t => !noStem t)
+
+/-- the script's `compress` in the form under test: `stemFix` = F19-EMPTYSTEM repaired,
+`lim` = F19-LONGRUN repaired (both probed on the real script by the check) -/
+def compressV (lim : Option Nat) (stemFix : Bool) (tags : List Str) : List (List Elem) :=
+  if stemFix then compressGroupsFixed lim tags else compressGroups lim tags
 
 def Run.render (r : Run) : Str :=
   match r.stop with
